@@ -120,7 +120,114 @@ def _flag_definition(f: FunctionInfo, name: str, at_node: ast.AST) -> Optional[a
     return v
 
 
-def fact_nodes_at(ctx, f: FunctionInfo, node: ast.AST) -> List[Tuple[ast.AST, bool]]:
+def _never_none(e: ast.AST) -> bool:
+    """the value of ``e`` is never None, whatever its operands are"""
+    if isinstance(e, (ast.Dict, ast.List, ast.Set, ast.Tuple, ast.JoinedStr, ast.ListComp, ast.DictComp, ast.SetComp)):
+        return True
+    if isinstance(e, ast.Constant):
+        return e.value is not None
+    if isinstance(e, ast.BoolOp) and isinstance(e.op, ast.Or):
+        return _never_none(e.values[-1])
+    if isinstance(e, ast.Call) and isinstance(e.func, ast.Name) and e.func.id in ("dict", "list", "set", "tuple", "str", "int", "bool", "sorted",
+                                                                                    "OrderedDict", "frozenset"):
+        return True
+    return False
+
+
+def _sentinel_correlation(f: FunctionInfo, e: ast.AST, truth: bool, at_node: ast.AST) -> List[Tuple[ast.AST, bool]]:
+    """`v is None` where v is bound exactly twice, to None in one branch of an if / else and to something that is never None in the
+    other: the test stands for the condition of that if.  (`v is None`, truth) -> the atoms of that condition."""
+    if not (isinstance(e, ast.Compare) and len(e.ops) == 1 and isinstance(e.ops[0], ast.Is) and isinstance(e.left, ast.Name)
+            and isinstance(e.comparators[0], ast.Constant) and e.comparators[0].value is None):
+        return []
+    flow = flow_of(f.node)
+    v = e.left.id
+    defs = [d for d in flow.all_defs if d.var == v]
+    if len(defs) != 2 or any(d.kind != "assign" or d.value is None or d.node is None or d.node < 0 for d in defs):
+        return []
+    d_none = [d for d in defs if isinstance(d.value, ast.Constant) and d.value.value is None]
+    d_val = [d for d in defs if _never_none(d.value)]
+    if len(d_none) != 1 or len(d_val) != 1:
+        return []
+    s_none, s_val = flow.cfg.nodes[d_none[0].node].ast, flow.cfg.nodes[d_val[0].node].ast
+    best = None
+    for n in own_nodes(f.node):
+        if not isinstance(n, ast.If) or not n.orelse:
+            continue
+        in_body = lambda st, blk: any(x is st for b in blk for x in ast.walk(b))  # noqa: E731
+        if in_body(s_none, n.body) and in_body(s_val, n.orelse):
+            cand = (n, True)
+        elif in_body(s_none, n.orelse) and in_body(s_val, n.body):
+            cand = (n, False)
+        else:
+            continue
+        if best is None or any(x is cand[0] for x in ast.walk(best[0])):
+            best = cand  # the innermost such if
+    if best is None:
+        return []
+    n, none_in_body = best
+    # the operands of the condition are not re-bound between the if and the use
+    reads = {x.id for x in ast.walk(n.test) if isinstance(x, ast.Name)}
+    if any(d.var in reads and d.kind != "param" and d.node is not None and d.node >= 0 and flow.cfg.node_of(n.test) is not None
+           and flow.cfg.path_exists(flow.cfg.node_of(n.test).id, d.node, exceptional=False) for d in flow.all_defs):
+        return []
+    c_truth = none_in_body if truth else not none_in_body
+    return [(e2, t2) for e2, t2 in _atomise(n.test, c_truth) if not isinstance(e2, ast.Constant)]
+
+
+def _falsy_const(e: ast.AST) -> bool:
+    if isinstance(e, ast.Constant):
+        return not e.value
+    if isinstance(e, (ast.Dict, ast.List, ast.Set, ast.Tuple)):
+        return not (e.keys if isinstance(e, ast.Dict) else e.elts)
+    return False
+
+
+class _RenameName(ast.NodeTransformer):
+    def __init__(self, a: str, b: str):
+        self.a, self.b = a, b
+
+    def visit_Name(self, n: ast.Name):
+        return ast.copy_location(ast.Name(id=self.b, ctx=n.ctx), n) if n.id == self.a else n
+
+
+def _origin_facts(ctx, f: FunctionInfo, e: ast.AST, truth: bool, depth: int) -> List[Tuple[ast.AST, bool]]:
+    """`v` is known to be truthy (or not None) and every binding of `v` but one is a falsy constant ('nothing found'): the value comes
+    from that one binding, so what is known where it happens is known here - also about `v` itself when it is a copy of a name."""
+    if depth <= 0:
+        return []
+    v = None
+    if isinstance(e, ast.Name) and truth:
+        v = e.id
+    elif isinstance(e, ast.Compare) and len(e.ops) == 1 and isinstance(e.ops[0], ast.Is) and isinstance(e.left, ast.Name) \
+            and isinstance(e.comparators[0], ast.Constant) and e.comparators[0].value is None and not truth:
+        v = e.left.id
+    if v is None:
+        return []
+    flow = flow_of(f.node)
+    if not flow.is_local(v):
+        return []
+    defs = [d for d in flow.all_defs if d.var == v]
+    if len(defs) < 2 or any(d.kind != "assign" or d.value is None or d.node is None or d.node < 0 for d in defs):
+        return []
+    real = [d for d in defs if not _falsy_const(d.value)]
+    if len(real) != 1:
+        return []
+    d = real[0]
+    stmt = flow.cfg.nodes[d.node].ast
+    out: List[Tuple[ast.AST, bool]] = []
+    for e2, t2 in fact_nodes_at(ctx, f, stmt, depth - 1):
+        names = {x.id for x in ast.walk(e2) if isinstance(x, ast.Name)}
+        # only facts about things that are bound once (they cannot have changed since)
+        if any(sum(1 for dd in flow.all_defs if dd.var == nm) > 1 for nm in names if flow.is_local(nm)):
+            continue
+        out.append((e2, t2))
+        if isinstance(d.value, ast.Name) and d.value.id in names:
+            out.append((_RenameName(d.value.id, v).visit(copy.deepcopy(e2)), t2))
+    return out
+
+
+def fact_nodes_at(ctx, f: FunctionInfo, node: ast.AST, _depth: int = 2) -> List[Tuple[ast.AST, bool]]:
     cfg = cfg_of(f.node)
     from .effects import _short_circuit_facts
 
@@ -130,6 +237,8 @@ def fact_nodes_at(ctx, f: FunctionInfo, node: ast.AST) -> List[Tuple[ast.AST, bo
             if isinstance(e, ast.Constant):
                 continue  # `while True:` and the like carry no information
             out.append((e, truth))
+            out += _sentinel_correlation(f, e, truth, t)
+            out += _origin_facts(ctx, f, e, truth, _depth)
             # a boolean flag stands for the test it was computed from
             if isinstance(e, ast.Name):
                 d = _flag_definition(f, e.id, t)
